@@ -84,6 +84,9 @@ func cmdCheck(id, tier string) int {
 		seed, _ = strconv.Atoi(s)
 	}
 	evPath := filepath.Join(*flagVerif, "evidence", id+".json")
+	if *flagEvDir != "" {
+		evPath = filepath.Join(*flagEvDir, "evidence", id+".json")
+	}
 	os.Remove(evPath)
 	db, err := loadDB()
 	if err != nil {
@@ -309,6 +312,9 @@ func cmdCheck(id, tier string) int {
 		fmt.Println(k)
 	}
 	replayDir := filepath.Join(*flagVerif, "replays")
+	if *flagEvDir != "" {
+		replayDir = filepath.Join(*flagEvDir, "replays")
+	}
 	os.MkdirAll(replayDir, 0o755)
 	nviol := 0
 	for _, f := range fails {
@@ -439,6 +445,9 @@ func truncate(s string, n int) string {
 
 func violationNoInput(id, oblig, detail, evPath, tier string, seed int, t0 time.Time) int {
 	replayDir := filepath.Join(*flagVerif, "replays")
+	if *flagEvDir != "" {
+		replayDir = filepath.Join(*flagEvDir, "replays")
+	}
 	os.MkdirAll(replayDir, 0o755)
 	rp := filepath.Join(replayDir, id+"-"+sanitizeSym(oblig)+".txt")
 	os.WriteFile(rp, []byte(fmt.Sprintf("property: %s\nobligation: %s\ndetail: %s\n", id, oblig, detail)), 0o644)
